@@ -28,7 +28,10 @@ Proved for the continuous conveyor, for EVERY operation / kernel-event sequence 
   EXACT travel accounting (`cbelt_travel_exact`): an item is offered at the exit at exactly
       entry + capacity·(item_length/speed) + (time it spent stopped by interrupts),
   hence never earlier than the full belt travel time (`cbelt_min_travel`) and exactly the belt travel time when it
-  was never stopped (`cbelt_exact_when_never_stopped`); the clock cannot pass a pending travel timer (`cbelt_clock`).
+  was never stopped (`cbelt_exact_when_never_stopped`); along a run in which the state machine never stalls — the
+  destination takes every item as soon as it is offered — nothing is ever interrupted and every travel time is exactly
+  capacity·p1 (`cbelt_exact_travel_when_never_stalled`, via the invariant NS of Proofs/CBeltNever.lean);
+  the clock cannot pass a pending travel timer (`cbelt_clock`).
   successive items enter at least item_length/speed apart (`cbelt_spacing`, all pairs, full strength).
 NOT proved for the continuous conveyor (decided only by the lock-step check and the judge rules `order`, `exit-order`,
   `overlap`): arrival at the exit in entry order.  On an accumulating belt whose items are not slot-aligned the order /
@@ -37,7 +40,7 @@ Domain of the model: every item has the conveyor's item length; an object is put
 histories in which `_get_belt_pattern` raises are cut there (`gaveUp`; none in the sampled histories after the repairs).
 -/
 import FsVerif.Proofs.SlotBelt3
-import FsVerif.Proofs.CBeltSpace3
+import FsVerif.Proofs.CBeltNever
 namespace FsVerif.Props.C12
 open FsVerif SlotBelt
 
@@ -140,6 +143,21 @@ theorem cbelt_exact_when_never_stopped {s : CBelt} (h : ReachC s) :
   obtain ⟨e, he, h1, h2⟩ := cbelt_travel_exact h a ha
   exact ⟨e, he, h1, by omega⟩
 
+/-- "If the destination takes every item as soon as it is offered, the travel time is exactly belt length / speed":
+    along a run in which the conveyor's state machine never finds the head item waiting unreserved (it never enters a
+    STALLED state: the ghost flag is clear after every operation), nothing is ever interrupted, and every item that was
+    offered at the exit was offered exactly capacity·p1 after it entered -/
+theorem cbelt_exact_travel_when_never_stalled (cfg : CCfg) (ops : List CBelt.Op)
+    (hn : ∀ k, k ≤ ops.length → (CBelt.run (CBelt.init cfg) (ops.take k)).everStalled = false) :
+    ∀ a ∈ (CBelt.run (CBelt.init cfg) ops).arrivals, ∃ e ∈ (CBelt.run (CBelt.init cfg) ops).entered,
+      e.seq = a.q ∧ a.t = e.entry + (CBelt.run (CBelt.init cfg) ops).cfg.cap * (CBelt.run (CBelt.init cfg) ops).cfg.p1 := by
+  intro a ha
+  have hns := CBelt.run_ns ops (CBelt.init cfg) (CBelt.init_ns cfg) hn
+  have hr : ReachC (CBelt.run (CBelt.init cfg) ops) := ⟨cfg, ops, rfl⟩
+  obtain ⟨e, he, h1, h2⟩ := cbelt_travel_exact hr a ha
+  have hz := hns.zeroA a ha
+  exact ⟨e, he, h1, by omega⟩
+
 /-- the clock cannot pass a pending kernel event (in particular a travel timer) -/
 theorem cbelt_clock {s : CBelt} (h : ReachC s) : ∀ ev ∈ s.queue, s.now ≤ ev.time := (reachC_ti h).clock
 
@@ -152,5 +170,15 @@ def demoC : List CBelt.Op :=
 
 example : (CBelt.run (CBelt.init { cap := 3, p1 := 2, acc := false }) demoC).arrivals.map (fun a => (a.q, a.t, a.ti)) = [(0, 6, 0), (1, 20, 12)] := by
   decide
+
+/-- non-vacuity of `cbelt_exact_travel_when_never_stalled`: a consumer reserves before the item arrives and takes it at
+    once; the flag stays clear after every operation and the item is offered exactly 3·2 = 6 ticks after it entered -/
+def demoFree : List CBelt.Op :=
+  [.reserveGet 1, .reservePut 0, .put 0 1 { id := 5 }, .ev, .adv 2, .ev, .ev, .adv 4, .ev, .ev, .ev, .get 1 0, .ev, .ev, .ev]
+
+example : (∀ k, k ≤ demoFree.length → (CBelt.run (CBelt.init { cap := 3, p1 := 2, acc := true }) (demoFree.take k)).everStalled = false) ∧
+    (CBelt.run (CBelt.init { cap := 3, p1 := 2, acc := true }) demoFree).arrivals.map (fun a => (a.q, a.t, a.ti)) = [(0, 6, 0)] ∧
+    (CBelt.run (CBelt.init { cap := 3, p1 := 2, acc := true }) demoFree).gotLog.map (·.id) = [5] := by
+  decide +kernel
 
 end FsVerif.Props.C12
